@@ -1150,7 +1150,8 @@ class Evaluator:
             if all(isinstance(a, Const) for a in args) and all(isinstance(v, Const) for v in kwargs.values()):
                 if attr in ("upper", "lower", "strip", "replace", "split", "startswith", "endswith", "encode", "join",
                             "items", "keys", "values", "get", "format", "lstrip", "rstrip", "title", "capitalize", "decode",
-                            "count", "index", "copy"):
+                            "count", "index", "copy", "rsplit", "partition", "rpartition", "splitlines", "removeprefix", "removesuffix", "zfill", "isdigit",
+                            "isalpha", "isalnum", "isspace", "find", "rfind", "casefold", "swapcase", "center", "ljust", "rjust", "expandtabs", "hex"):
                     try:
                         r = getattr(base.v, attr)(*[a.v for a in args], **{k: v.v for k, v in kwargs.items()})
                     except Exception as ex:
